@@ -327,6 +327,13 @@ def families(k):
     fams.append(("X0X1+Z0Z1", lambda phi: [("X0 X1", phi / 2), ("Z0 Z1", phi / 2)], 2, ["bell+"], -2 * math.pi))
     # positive time: eigenphase = -E t / 2 pi ; H = -phi Z0 on |0>, t = +2 pi
     fams.append(("-Z0,t>0", lambda phi: [("Z0", -phi)], 1, [[1, 0]], 2 * math.pi))
+    # Y-type (RX basis changes under control): H = phi Y0 on (|0> + i|1>)/sqrt2
+    fams.append(("Y0", lambda phi: [("Y0", phi)], 1, ["y+"], -2 * math.pi))
+    # two single-qubit terms, eigenvalue phi on |00>, and the same operator on |11> (eigenvalue -phi) with positive time
+    fams.append(("Z0+Z1", lambda phi: [("Z0", phi / 2), ("Z1", phi / 2)], 2, [[1, 0, 0, 0]], -2 * math.pi))
+    fams.append(("Z0+Z1|11>", lambda phi: [("Z0", phi / 2), ("Z1", phi / 2)], 2, [[0, 0, 0, 1]], 2 * math.pi))
+    # degenerate eigenspace of a non-diagonal operator: X0X1 = +1 on span{(|00>+|11>)/sqrt2, (|01>+|10>)/sqrt2}
+    fams.append(("X0X1", lambda phi: [("X0 X1", phi)], 2, ["xx+"], -2 * math.pi))
     return fams
 
 
@@ -335,6 +342,13 @@ def eigenvector(env, basis, n_state, tag="c"):
     if basis == ["bell+"]:
         r = R.rsqrt2()
         return [r, R.ZERO(), R.ZERO(), r]
+    if basis == ["y+"]:
+        r = R.rsqrt2()
+        return [r, R.IMAG() * r]
+    if basis == ["xx+"]:
+        r = R.rsqrt2()
+        c0, c1 = env.state(1, tag, normalized=True)
+        return [c0 * r, c1 * r, c1 * r, c0 * r]
     if len(basis) == 1:
         return [R.C(x) if env.symbolic else complex(x) for x in basis[0]]
     cs = env.state(int(math.log2(len(basis))) if len(basis) > 1 else 0, tag, normalized=True)
@@ -395,7 +409,7 @@ def h_qpe(env, fam, k, m, ukind, canary=False):
     for bits, p in sorted(probs.items()):
         env.check_eq(p, 1 if bits == want_bits else 0, f"QPE[{fam},{ukind}] probability of register outcome {bits} for phase {m}/2^{k}")
     env.check_eq(solver.energy_estimation(want_bits), want_m / 2 ** k, "QPESolver.energy_estimation(bits of m) == m/2^k")
-    if not canary and len(basis) == 1 and basis != ["bell+"]:
+    if not canary and len(basis) == 1 and isinstance(basis[0], list):
         # auxiliary concrete end-to-end run through the installed simulator (floats)
         from tangelo.linq import Circuit, Gate
         ref = Circuit([Gate("X", q) for q, b in enumerate(format(basis[0].index(1), f"0{n_state}b")) if b == "1"], n_qubits=n_state)
@@ -499,8 +513,9 @@ def sv_specs(tier):
             ("3q/uniform", (H_, (H_, (H_, c_(0), c_(0)), (H_, c_(0), c_(0))), (H_, (H_, c_(0), c_(0)), (H_, c_(0), c_(0))))),
             ("3q/real-product", (G, (G, (G, c_(0), c_(0)), (H_, c_(0), c_(0))), (L, (L, c_(0), Z_), (G, Z_, Z_)))),
             ("3q/uniform-1+i", (H_, (H_, (H_, c_(1), c_(1)), (H_, c_(1), c_(1))), (H_, (H_, c_(1), c_(1)), (H_, c_(1), c_(1)))))]
+    out += [("3q/general", (G, g2, (G, (G, S_, S_), (G, S_, S_)))), ("3q/left-half-general", (L, g2, z2))]
     if tier == "thorough":
-        out += [("3q/left-half-general", (L, g2, z2)),
+        out += [("3q/general-consts", (G, (G, (G, S_, c_(4)), (G, c_(2), S_)), (G, (G, c_(-1), S_), (G, S_, c_(3))))),
                 ("3q/real-positive", (G, (G, (G, c_(0), c_(0)), (G, c_(0), c_(0))), (G, (G, c_(0), c_(0)), (G, c_(0), c_(0))))),
                 ("3q/sparse-sym", (G, (G, (L, S_, Z_), (RR, Z_, S_)), (RR, (G, Z_, Z_), (RR, Z_, S_)))),
                 ("2q/general-b", (G, (G, S_, c_(4)), (G, c_(2), S_)))]
@@ -513,18 +528,18 @@ def shapes(tier, seed):
     T = tier == "thorough"
     # ---- QFT
     lists = []
-    for n in ((4,) if not T else (5,)):
+    for n in (4, 5):
         for m in range(1, (3 if not T else 4) + 1):
             for ql in itertools.permutations(range(n), m):
+                if n == 5 and 4 not in ql:
+                    continue          # lists inside width 4 are already covered with n = 4
                 lists.append((n, ql))
-    if not T:
-        extra = [(5, ql) for m in (1, 2, 3) for ql in itertools.permutations(range(5), m) if 4 in ql]
-        lists += rnd.sample(extra, 10)
+    if T:
+        lists += [(6, ql) for ql in rnd.sample(list(itertools.permutations(range(6), 5)), 12)]
+        lists += [(6, ql) for ql in rnd.sample(list(itertools.permutations(range(6), 4)), 12)]
     for n, ql in lists:
         for inverse in (False, True):
             for swap in (True, False):
-                if not T and len(ql) == 3 and rnd.random() < 0.5 and not (ql in ((0, 1, 2), (3, 1, 0))):
-                    continue
                 give_n = (sum(ql) + inverse + swap) % 2 == 0
                 out.append(Shape(f"qft/n{n}/{'-'.join(map(str, ql))}/inv={int(inverse)}/swap={int(swap)}", h_qft,
                                  dict(n=n, qlist=ql, inverse=inverse, swap=swap, give_n=give_n), modules=MODS, group="qft"))
@@ -546,10 +561,11 @@ def shapes(tier, seed):
                      modules=MODS, canary=True, max_paths=32, group="canary"))
     # ---- QPE / iQPE
     ukinds = ("trotter1", "trotter2r", "trotter1s2", "circuit-all", "circuit-var")
-    for k in (1, 2, 3):
+    for k in (1, 2, 3) + ((4,) if T else ()):
         for fam, *_ in families(k):
             for m in range(2 ** k):
-                uk = ukinds if T else [ukinds[(m + k + len(fam)) % len(ukinds)], ukinds[(m + 2 * k + 1) % len(ukinds)]]
+                uk = ukinds if (T and k < 4) or k < 3 else [ukinds[(m + k + len(fam)) % len(ukinds)], ukinds[(m + 2 * k + 1) % len(ukinds)],
+                                                           ukinds[(m + 3) % len(ukinds)]]
                 for u in dict.fromkeys(uk):
                     if fam == "I-Z0" and u.startswith("circuit"):
                         # a user circuit carries no global phase: the identity term of H is not part of that unitary
